@@ -37,7 +37,8 @@ pub enum CAir {
     /// width 6: the triple (q0,q1,q2) is looked up in the table (t0,t1,t2) of the same AIR (local
     /// lookup, tuple wider than every global payload of the batch)
     Local3,
-    /// b = a * p + q with p, q periodic columns of periods 4 and 2
+    /// b = a * p + q + r with p, q, r periodic columns of periods 4, 2 and 8 (a shorter period
+    /// after a longer one and a longer one after a shorter one)
     Periodic,
     /// b = a^5: constraint degree 5, four quotient chunks
     Quint,
@@ -50,6 +51,7 @@ pub enum CAir {
 
 const PERIODIC: [u64; 4] = [2, 3, 5, 7];
 const PERIODIC2: [u64; 2] = [11, 13];
+const PERIODIC3: [u64; 8] = [17, 19, 23, 29, 31, 37, 41, 43];
 
 impl<Val: Field> BaseAir<Val> for CAir {
     fn width(&self) -> usize {
@@ -74,10 +76,10 @@ impl<Val: Field> BaseAir<Val> for CAir {
         if matches!(self, Self::Prep { next: true, .. }) { vec![0] } else { vec![] }
     }
     fn num_periodic_columns(&self) -> usize {
-        if matches!(self, Self::Periodic) { 2 } else { 0 }
+        if matches!(self, Self::Periodic) { 3 } else { 0 }
     }
     fn periodic_columns(&self) -> Vec<Vec<Val>> {
-        if matches!(self, Self::Periodic) { vec![PERIODIC.iter().map(|&x| Val::from_u64(x)).collect(), PERIODIC2.iter().map(|&x| Val::from_u64(x)).collect()] } else { vec![] }
+        if matches!(self, Self::Periodic) { vec![PERIODIC.iter().map(|&x| Val::from_u64(x)).collect(), PERIODIC2.iter().map(|&x| Val::from_u64(x)).collect(), PERIODIC3.iter().map(|&x| Val::from_u64(x)).collect()] } else { vec![] }
     }
 }
 
@@ -111,7 +113,8 @@ where
         CAir::Periodic => {
             let p: AB::Expr = builder.periodic_values()[0].into();
             let q: AB::Expr = builder.periodic_values()[1].into();
-            builder.assert_zero(p * a + q - b);
+            let r: AB::Expr = builder.periodic_values()[2].into();
+            builder.assert_zero(p * a + q + r - b);
         }
         CAir::Prep { next, .. } => {
             let prep = builder.preprocessed().clone();
@@ -214,7 +217,7 @@ fn trace_for(air: CAir, rows: usize) -> RowMajorMatrix<F> {
             CAir::Plain => a + a,
             CAir::Send | CAir::Recv => a * a,
             CAir::Step | CAir::Pub => F::from_usize(2 * r + 1),
-            CAir::Periodic => a * F::from_u64(PERIODIC[r % 4]) + F::from_u64(PERIODIC2[r % 2]),
+            CAir::Periodic => a * F::from_u64(PERIODIC[r % 4]) + F::from_u64(PERIODIC2[r % 2]) + F::from_u64(PERIODIC3[r % 8]),
             CAir::Quint => a * a * a * a * a,
             CAir::Prep { .. } => a * F::from_usize(r + 1) + F::from_usize(2 * r + 3),
             CAir::Local3 => unreachable!(),
@@ -228,7 +231,9 @@ fn trace_for(air: CAir, rows: usize) -> RowMajorMatrix<F> {
 
 const PREP: CAir = CAir::Prep { log_rows: 0, next: false };
 const PREPN: CAir = CAir::Prep { log_rows: 0, next: true };
-const ORDERS: [&[CAir]; 23] = [
+pub const N_ORDERS: usize = 23;
+pub const N_UNI_KINDS: usize = 7;
+const ORDERS: [&[CAir]; N_ORDERS] = [
     &[CAir::Quint],
     &[CAir::Send, CAir::Quint, CAir::Recv],
     &[CAir::Quint, PREPN, CAir::Periodic],
@@ -269,12 +274,17 @@ fn corrupt(v: &mut [Challenge], pos: usize, seed: u64) {
     }
 }
 
+/// Residue that selects the uni-STARK AIR kind for this FRI shape and height.
+pub fn uni_kind_index(s: &FriShape, log_n: usize) -> usize {
+    (s.num_queries + s.cap_height + 3 * s.log_blowup + s.commit_pow_bits + log_n) % N_UNI_KINDS
+}
+
 fn uni_kind(s: &FriShape, log_n: usize) -> CAir {
-    match (s.num_queries + s.cap_height + 3 * s.log_blowup + s.commit_pow_bits + log_n) % 7 {
+    match uni_kind_index(s, log_n) {
         6 => CAir::Quint,
         0 => CAir::Plain,
         1 => CAir::Step,
-        2 if log_n >= 2 => CAir::Periodic,
+        2 if log_n >= 3 => CAir::Periodic,
         2 => CAir::Step,
         3 => CAir::Pub,
         4 => CAir::Prep { log_rows: log_n as u8, next: false },
@@ -462,7 +472,7 @@ macro_rules! custom_universe {
                     let other_log = min_log + (public_lanes + alu_lanes) % 4;
                     let log_of = |a: &CAir| match a {
                         CAir::Send | CAir::Recv => bus_log,
-                        CAir::Periodic => other_log.max(2),
+                        CAir::Periodic => other_log.max(3),
                         _ => other_log,
                     };
                     for a in airs.iter_mut() {
